@@ -154,6 +154,25 @@ def resolve(reg, ns, ev, args):
     return None
 
 
+def derived_namespaces(reg):
+    """what `connect(namespaces=None)` must connect: every namespace that has a function handler or a
+    class-based namespace, once; the catch-all '*' is skipped; nothing left -> ['/'].  (The library
+    builds it from a set: the order is unspecified, the harness fixes the sorted order.)"""
+    nss = sorted({h['ns'] for h in reg['fns']} | {c['ns'] for c in reg['classes']} - {'*'})
+    nss = [n for n in nss if n != '*']
+    return nss or ['/']
+
+
+def norm_connect_order(op, out):
+    """`namespaces=None`: the CONNECT packets of the call are compared as a multiset"""
+    if op.get('op') == 'connect' and op.get('default'):
+        idx = [i for i, t in enumerate(out) if t[0] == 'send' and t[1][:1] == '0']
+        vals = sorted(out[i][1] for i in idx)
+        for i, v_ in zip(idx, vals):
+            out[i] = ['send', v_]
+    return out
+
+
 def registry_cfg_line(reg, reconnection=False):
     rets = []
     for hh in reg['fns']:
@@ -260,7 +279,8 @@ def run_impl_op(w, op):
     if k == 'connect':
         a = op['auth']
         auth = w.auth(a['val'], a['callable'], a.get('coro', False))
-        nss = op['nss'][0] if op.get('as_str') and len(op['nss']) == 1 else list(op['nss'])
+        nss = None if op.get('default') else \
+            op['nss'][0] if op.get('as_str') and len(op['nss']) == 1 else list(op['nss'])
         res = w.connect(nss, auth=auth, wait=op['wait'], outcome=op['outcome'], reacts=op['reacts'])
     elif k == 'emit':
         cb = op.get('cb')
@@ -541,6 +561,9 @@ class HistoryGen:
         rng = self.rng
         k = rng.choice([1, 1, 2, 2, 3])
         nss = rng.sample(NS_POOL, k)
+        default = rng.random() < 0.2
+        if default:
+            nss = derived_namespaces(self.reg)       # connect(namespaces=None)
         r = rng.random()
         aval = None if r < 0.3 else rng.choice([{}, {'token': 'abc'}, {'user': 'é', 'n': [1, 2]}, 'secret', '',
                                                   [1, 'x'], False]) if r < 0.8 else self.value(0.0)
@@ -554,7 +577,7 @@ class HistoryGen:
                                                                      {'message': 'denied', 'code': 7}],
                             ['Unexpected response from server', None]])
             return {'op': 'connect', 'nss': nss, 'auth': auth, 'wait': wait, 'outcome': ('refuse', a),
-                    'reacts': [], 'window': 'refused'}
+                    'reacts': [], 'window': 'refused', 'default': default}
         self.neio += 1
         oc = ('accept', 'E%d' % self.neio)
         # what happens inside the window
@@ -626,8 +649,12 @@ class HistoryGen:
             reacts[j].insert(pos, ('lost',) if rng.random() < 0.7 else ('close',))
         if window == 'disc':
             reacts[-1] += srv_frames(DISCONNECT, None, rng.choice(nss))
+        if default:
+            # the order of the CONNECT packets is unspecified: everything arrives after the last one
+            reacts = [[] for _ in nss[:-1]] + [[e for rs in reacts for e in rs]]
         return {'op': 'connect', 'nss': nss, 'auth': auth, 'wait': wait, 'outcome': oc, 'reacts': reacts,
-                'window': window, 'as_str': len(nss) == 1 and rng.random() < 0.4}
+                'window': window, 'as_str': not default and len(nss) == 1 and rng.random() < 0.4,
+                'default': default}
 
     def op_emit(self, connected_ns=True):
         rng = self.rng
@@ -1231,11 +1258,28 @@ class Oracle:
         connects = [(p[1], p[3]) for p in sent_top]
         want = [(n, want_auth) for n in nss]
         window_dead = not v.up
-        if not window_dead:
+        if op.get('default'):
+            self.stat('connect.namespaces_none')
+            both = {h['ns'] for h in self.reg['fns']} & {c['ns'] for c in self.reg['classes']} - {'*'}
+            if both:
+                self.stat('connect.namespaces_none.fn_and_class_on_one_namespace')
+            if nss == ['/'] and not any(h['ns'] == '/' for h in self.reg['fns']) \
+                    and not any(c['ns'] == '/' for c in self.reg['classes']):
+                self.stat('connect.namespaces_none.fallback_root')
+            if nss != derived_namespaces(self.reg):
+                self.leave('default namespaces')
+                return
+        if not window_dead and op.get('default'):
+            # one CONNECT per distinct handler namespace, in any order, each carrying the auth
+            if sorted(c[0] for c in connects) != sorted(nss) or \
+                    not all(C.same(c[1], want_auth) for c in connects):
+                self.bad('C08.connect_sends', 'connect(namespaces=None): CONNECT packets %r, required one for each of %r'
+                         % (connects, nss))
+        elif not window_dead:
             if [c[0] for c in connects] != [w_[0] for w_ in want] or \
                     not all(C.same(c[1], want_auth) for c in connects):
                 self.bad('C08.connect_sends', 'CONNECT packets %r, required %r' % (connects, want))
-        else:
+        elif not op.get('default'):
             if [c[0] for c in connects] != nss[:len(connects)]:
                 self.bad('C08.connect_sends', 'CONNECT packets %r are not a prefix of %r' % (connects, nss))
         if window_dead:
@@ -1368,7 +1412,8 @@ def compare(case, recs, answers, upto=None):
     for i, (rec, ans) in enumerate(zip(recs, answers)):
         if upto is not None and i >= upto:
             return None
-        a, b = canon_impl(rec), canon_model(ans)
+        op = case['ops'][i]
+        a, b = norm_connect_order(op, canon_impl(rec)), norm_connect_order(op, canon_model(ans))
         if a != b:
             return (i, 'trace', a, b)
         sa, sb = canon_snap_impl(rec['snap']), canon_snap_model(ans['q'])
@@ -1519,6 +1564,9 @@ def run_check(ctx, profile, props, nontrivial_rule, is_nontrivial):
         'engineio.Client/AsyncClient are replaced; messages are delivered inline and in order',
         'wait_timeout / call timeout are not time: the reactions scripted inside the call are what arrives '
         'before the timeout (threading: timeout=0; asyncio: virtual clock)',
+        'connect(namespaces=None): the library derives the list from a set (unspecified order); the model is '
+        'given the derived list in sorted order, all reactions are scripted after the last CONNECT and the '
+        'CONNECT packets of that call are compared as a multiset',
         'reconnection=False (reconnection policy is C10)',
         'concurrent delivery (asyncio): bursts deliver the next packets while coroutine handlers/callbacks of the '
         'earlier ones are suspended on harness-owned futures, released in order; compared with the sequential '
